@@ -232,8 +232,13 @@ class Model():
                 f' of model"{self.name}".'
             )
 
-        # First remove all of the associations
+        # First remove all of the associations. A reflexive association is
+        # listed once per field the asset is in, handle each only once.
+        associations = []
         for association in asset.associations:
+            if association not in associations:
+                associations.append(association)
+        for association in associations:
             self.remove_asset_from_association(asset, association)
 
         # Also remove all of the entry points
